@@ -195,7 +195,7 @@ func (m *ipModel) failure(iv ival) {
 		if len(m.fails) >= m.cfg.M {
 			m.note("below-threshold-only-thanks-to-window")
 		}
-		if m.hadSuccess && len(m.fails)+len(m.preSuccess) >= m.cfg.M {
+		if c, _ := m.windowCount(iv, m.preSuccess); m.hadSuccess && c+cmin >= m.cfg.M {
 			m.note("below-threshold-only-thanks-to-success")
 		}
 	}
